@@ -67,6 +67,7 @@ from ._loaders_dumpers import (
 from ._namespace import (
     Namespace,
     NSKeyError,
+    del_clash_mark,
     is_meta_key,
     patch_namespace,
     recreate_branches,
@@ -1356,9 +1357,9 @@ class ArgumentParser(ParserDeprecations, ActionsContainer, ArgumentLinking, argp
             cfg_branch = cfg
             cfg = Namespace()
             cfg[parent_key] = cfg_branch
-            keys = [parent_key + "." + k for k in cfg_branch.__dict__.keys()]
+            keys = [parent_key + "." + del_clash_mark(k) for k in cfg_branch.__dict__.keys()]
         else:
-            keys = list(cfg.__dict__.keys())
+            keys = [del_clash_mark(k) for k in cfg.__dict__.keys()]
 
         if prev_cfg:
             prev_cfg = prev_cfg.clone()
@@ -1385,7 +1386,7 @@ class ArgumentParser(ParserDeprecations, ActionsContainer, ArgumentLinking, argp
                 if isinstance(value, dict):
                     value = Namespace(value)
                 if isinstance(value, Namespace):
-                    new_keys = value.__dict__.keys()
+                    new_keys = [del_clash_mark(k) for k in value.__dict__.keys()]
                     if not new_keys and not (_find_action(self, key) or _is_branch_key(self, key) or key in self.groups):
                         # an empty mapping has no leaf that validate could check
                         raise NSKeyError(f"Key '{key}' is not expected")
